@@ -179,6 +179,16 @@ func main() {
 	if !ok {
 		fatal("unknown property %s", id)
 	}
+	{
+		var ks []string
+		for k := range loadFindings().known {
+			if strings.HasPrefix(k, id+"\x00") {
+				ks = append(ks, strings.TrimPrefix(k, id+"\x00"))
+			}
+		}
+		sort.Strings(ks)
+		knownKeysEnv = strings.Join(ks, ",")
+	}
 	start := time.Now()
 	// one build directory per process (concurrent runs of one property do not disturb each other); directories
 	// left behind by runs that are gone are removed here
@@ -306,9 +316,12 @@ func main() {
 		}(i, j)
 	}
 	wg.Wait()
+	// a worker that died (a fatal runtime error in library code the harness cannot contain) is a harness error - unless
+	// another worker of this run confirms a violation: then that is reported and the dead worker is mentioned
+	var workerErrs []string
 	for i, e := range errs {
 		if e != "" {
-			fatal("worker %s shard %d: %s", jobs[i].b.Name, jobs[i].shard, e)
+			workerErrs = append(workerErrs, fmt.Sprintf("worker %s shard %d: %s", jobs[i].b.Name, jobs[i].shard, e))
 		}
 	}
 
@@ -323,6 +336,10 @@ func main() {
 		b string
 	}
 	for i, r := range results {
+		if r == nil {
+			agg.Exhaustive = false
+			continue
+		}
 		agg.Evaluations += r.Evaluations
 		agg.Distinct += r.Distinct
 		agg.States += r.States
@@ -413,6 +430,15 @@ func main() {
 		}
 	}
 
+	if len(workerErrs) > 0 && nviol == 0 {
+		fatal("%s", workerErrs[0])
+	}
+	for _, w := range workerErrs {
+		if len(w) > 400 {
+			w = w[:400]
+		}
+		fmt.Fprintln(os.Stderr, "WORKER DIED (a confirmed violation of this run is reported all the same): "+w)
+	}
 	if len(unconfirmed) > 0 && nviol == 0 {
 		fatal("%s", strings.Join(unconfirmed, "; "))
 	}
@@ -561,11 +587,15 @@ func buildWorker(bdir string, b build) (string, error) {
 	return bin, nil
 }
 
+// knownKeysEnv: the keys of the known findings of the property being checked (explorations record such a finding once
+// and go on instead of stopping at it).
+var knownKeysEnv string
+
 func runWorker(bin string, args []string, out string, timeout time.Duration) (*proto.ShardResult, string) {
 	sh := fmt.Sprintf("ulimit -v 16000000; exec %s %s", bin, strings.Join(args, " "))
 	cmd := exec.Command("bash", "-c", sh)
 	cmd.Dir = verifDir
-	cmd.Env = append(os.Environ(), "GOMEMLIMIT=6GiB", "GORACE=log_path="+out+".race halt_on_error=0 exitcode=0")
+	cmd.Env = append(os.Environ(), "GOMEMLIMIT=6GiB", "GORACE=log_path="+out+".race halt_on_error=0 exitcode=0", "VERIF_KNOWN_KEYS="+knownKeysEnv)
 	var stderr bytes.Buffer
 	cmd.Stdout, cmd.Stderr = &stderr, &stderr
 	if err := cmd.Start(); err != nil {
